@@ -13,7 +13,7 @@ def list_mutants(prop=None):
     for d in sorted(glob.glob(os.path.join(VERIF, "mutants", "*.diff"))):
         name = os.path.basename(d)[:-5]
         exp = open(d[:-5] + ".expect").read().split()
-        if prop is None or exp[0] == prop:
+        if prop is None or exp[0] == prop or name.startswith(prop):
             out.append((name, d, exp[0], exp[1]))
     return out
 
